@@ -477,7 +477,7 @@ class SimNet:
     async def start_connection(self, addr_infos, *, happy_eyeballs_delay=None, interleave=None, loop=None, **kw):
         hosts = [ai[3] for ai in addr_infos]
         port = addr_infos[0][4][1]
-        att = {"t": self.loop.time(), "hosts": hosts, "port": port, "fut": self.loop.create_future(), "outcome": None, "end": None}
+        att = {"t": self.loop.time(), "hosts": hosts, "port": port, "fut": self.loop.create_future(), "outcome": None, "end": None, "task": id(asyncio.current_task())}  # (which task asked: attempts of one connector run share it)
         self.attempts.append(att)
         self.log.append(("attempt", self.loop.time(), tuple(hosts)))
         if self.auto is not None:
